@@ -260,6 +260,87 @@ EXC_PARENTS = {
 }
 
 
+_STDLIB: dict[str, Any] = {}
+
+
+def stdlib(name: str) -> "MObj":
+    """Models of the pure functions of functools / operator / itertools, by their documented meaning, on the interpreter's values."""
+    if name in _STDLIB:
+        return _STDLIB[name]
+
+    def binop(op_cls: type) -> Callable[..., Any]:
+        def f(ex: "AbsExec", e: ast.AST, args: list, kw: dict) -> Any:
+            node = ast.copy_location(ast.BinOp(left=ast.Name(id="<a>", ctx=ast.Load()), op=op_cls(), right=ast.Name(id="<b>", ctx=ast.Load())), e)
+            return ex.ev(node, {"<a>": args[0], "<b>": args[1]})
+        return f
+
+    def compare(op_cls: type) -> Callable[..., Any]:
+        def f(ex: "AbsExec", e: ast.AST, args: list, kw: dict) -> Any:
+            node = ast.copy_location(ast.Compare(left=ast.Name(id="<a>", ctx=ast.Load()), ops=[op_cls()], comparators=[ast.Name(id="<b>", ctx=ast.Load())]), e)
+            return ex.ev(node, {"<a>": args[0], "<b>": args[1]})
+        return f
+
+    def reduce_(ex: "AbsExec", e: ast.AST, args: list, kw: dict) -> Any:
+        items = list(ex.iterate(args[1], e))
+        if len(args) > 2:
+            acc = args[2]
+        elif items:
+            acc, items = items[0], items[1:]
+        else:
+            raise Internal("TypeError", "reduce() of empty iterable with no initial value", e)
+        for x in items:
+            acc = ex.apply_value(args[0], [acc, x], e)
+        return acc
+
+    def partial_(ex: "AbsExec", e: ast.AST, args: list, kw: dict) -> Any:
+        f0, pre, prekw = args[0], list(args[1:]), dict(kw)
+        return lambda ex_, e_, a_, k_: ex_.apply_value(f0, pre + list(a_), e_, {**prekw, **k_})
+
+    def chain_(ex: "AbsExec", e: ast.AST, args: list, kw: dict) -> Any:
+        return [x for a in args for x in ex.iterate(a, e)]
+
+    def methodcaller(ex: "AbsExec", e: ast.AST, args: list, kw: dict) -> Any:
+        mname, margs, mkw = args[0], list(args[1:]), dict(kw)
+        return lambda ex_, e_, a_, k_: ex_.method(a_[0], mname, margs, mkw, e_)
+
+    def attrgetter(ex: "AbsExec", e: ast.AST, args: list, kw: dict) -> Any:
+        names = list(args)
+
+        def get(ex_: "AbsExec", e_: ast.AST, a_: list, k_: dict) -> Any:
+            vals = []
+            for nm in names:
+                v = a_[0]
+                for part in nm.split("."):
+                    v = ex_.attr(v, part, e_)
+                vals.append(v)
+            return vals[0] if len(vals) == 1 else tuple(vals)
+        return get
+
+    def itemgetter(ex: "AbsExec", e: ast.AST, args: list, kw: dict) -> Any:
+        idx = list(args)
+
+        def get(ex_: "AbsExec", e_: ast.AST, a_: list, k_: dict) -> Any:
+            vals = [ex_.ev(ast.copy_location(ast.Subscript(value=ast.Name(id="<v>", ctx=ast.Load()), slice=ast.Constant(value=i), ctx=ast.Load()), e_), {"<v>": a_[0]}) for i in idx]
+            return vals[0] if len(vals) == 1 else tuple(vals)
+        return get
+
+    if name == "functools":
+        m = MObj("module", {"reduce": reduce_, "partial": partial_})
+    elif name == "itertools":
+        ch = MObj("function", {"from_iterable": lambda ex, e, args, kw: [x for a in ex.iterate(args[0], e) for x in ex.iterate(a, e)], "__call__": chain_})
+        m = MObj("module", {"chain": ch})
+    else:
+        m = MObj("module", {"add": binop(ast.Add), "sub": binop(ast.Sub), "mul": binop(ast.Mult), "truediv": binop(ast.Div), "floordiv": binop(ast.FloorDiv), "mod": binop(ast.Mod),
+                            "pow": binop(ast.Pow), "and_": binop(ast.BitAnd), "or_": binop(ast.BitOr), "xor": binop(ast.BitXor),
+                            "lt": compare(ast.Lt), "le": compare(ast.LtE), "eq": compare(ast.Eq), "ne": compare(ast.NotEq), "ge": compare(ast.GtE), "gt": compare(ast.Gt),
+                            "is_": compare(ast.Is), "is_not": compare(ast.IsNot), "contains": lambda ex, e, args, kw: ex.contains(args[0], args[1], e),
+                            "not_": lambda ex, e, args, kw: not ex.truth(args[0], e), "truth": lambda ex, e, args, kw: ex.truth(args[0], e),
+                            "neg": lambda ex, e, args, kw: ex.ev(ast.copy_location(ast.UnaryOp(op=ast.USub(), operand=ast.Name(id="<a>", ctx=ast.Load())), e), {"<a>": args[0]}),
+                            "methodcaller": methodcaller, "attrgetter": attrgetter, "itemgetter": itemgetter})
+    _STDLIB[name] = m
+    return m
+
+
 def exc_matches(cls: str, handler: str) -> bool:
     while cls is not None:
         if cls == handler:
@@ -359,8 +440,14 @@ class AbsExec:
                 return self.hooks[e.id]
             if e.id in BUILTIN_EXC:
                 return ("exc-class", e.id)
-            if e.id in ("len", "reversed", "list", "tuple", "any", "all", "sum", "bool", "isinstance", "set", "frozenset", "iter", "str", "enumerate", "sorted", "min", "max", "range", "type", "locals", "vars", "setattr", "getattr", "hasattr", "delattr", "dict", "zip", "round", "pow", "abs", "int", "float"):
+            if e.id in ("len", "reversed", "list", "tuple", "any", "all", "sum", "bool", "isinstance", "set", "frozenset", "iter", "str", "enumerate", "sorted", "min", "max", "range", "type", "locals", "vars", "setattr", "getattr", "hasattr", "delattr", "dict", "zip", "round", "pow", "abs", "int", "float", "map", "filter"):
                 return ("builtin", e.id)
+            if e.id in ("functools", "operator", "itertools") and "stdlib:off" not in self.hooks:
+                return stdlib(e.id)
+            if e.id in ("reduce", "partial", "chain", "methodcaller", "attrgetter", "itemgetter") and "stdlib:off" not in self.hooks:
+                for mod_ in ("functools", "itertools", "operator"):
+                    if e.id in stdlib(mod_).fields:
+                        return stdlib(mod_).fields[e.id]
             if e.id == "settings":
                 return SettingsV()
             if e.id == "ExitStack":
@@ -747,6 +834,8 @@ class AbsExec:
                 kw.update(m_)
         if isinstance(f, Closure):
             return self.call_closure(f, args, kw, e)
+        if isinstance(f, MObj) and f.cls == "function" and callable(f.fields.get("__call__")):
+            return f.fields["__call__"](self, e, args, kw)
         if callable(f) and not isinstance(f, tuple):
             return f(self, e, args, kw)
         if isinstance(f, tuple) and f and f[0] == "exc-class":
@@ -797,6 +886,19 @@ class AbsExec:
                 env[x_.arg] = self.ev(d_, c.env)
         if isinstance(node, ast.Lambda):
             return self.ev(node.body, env)
+        declared = [n_ for st_ in ast.walk(node) if isinstance(st_, (ast.Nonlocal, ast.Global)) for n_ in st_.names]
+        if declared:
+            # `nonlocal x`: assignments in the body are assignments to the enclosing function's variable
+            try:
+                try:
+                    self.block(node.body, env)
+                except _Return as r:
+                    return r.value
+                return None
+            finally:
+                for n_ in declared:
+                    if n_ in env:
+                        c.env[n_] = env[n_]
         if _is_generator(node):
             # a helper generator: run to the end and hand back the list of what it yields (its side effects happen earlier than they would
             # lazily; analyses that order such effects against the consumer's must not inline generators)
@@ -932,9 +1034,30 @@ class AbsExec:
             return Opaque("number of tokens")
         if name == "enumerate":
             return [(i, v) for i, v in enumerate(self.iterate(args[0], e))]
+        if name == "map" and len(args) >= 2:
+            return [self.apply_value(args[0], list(xs), e) for xs in zip(*[self.iterate(a, e) for a in args[1:]])]
+        if name == "filter" and len(args) == 2:
+            return [x for x in self.iterate(args[1], e) if self.truth(x if args[0] is None else self.apply_value(args[0], [x], e), e)]
         if name == "range" and all(isinstance(a, int) for a in args):
             return list(range(*args))
         raise self.unknown(e, f"builtin {name}")
+
+    def apply_value(self, f: Any, args: list[Any], e: ast.AST, kw: dict[str, Any] | None = None) -> Any:
+        """Apply a callable value (a closure, a model function, a bound method, a builtin) to already evaluated arguments."""
+        kw = kw or {}
+        if isinstance(f, Closure):
+            return self.call_closure(f, args, kw, e)
+        if isinstance(f, tuple) and f and f[0] == "bound":
+            return self.method(f[1], f[2], args, kw, e)
+        if isinstance(f, tuple) and f and f[0] == "builtin":
+            self._call_kw = kw
+            try:
+                return self.builtin(f[1], args, e, {})
+            finally:
+                self._call_kw = {}
+        if callable(f) and not isinstance(f, tuple):
+            return f(self, e, args, kw)
+        raise self.unknown(e, "application of a value that is not a modelled function")
 
     def sort_values(self, v: list[Any], keyf: Any, reverse: bool, e: ast.AST) -> list[Any]:
         """sorted / list.sort on concrete values: the keys must be numbers, strings or tuples of them (a stable sort, as Python's)."""
@@ -1286,6 +1409,12 @@ class AbsExec:
                 nm = a.asname or a.name
                 if nm in self.globals:
                     continue  # the analysis supplies a model of this name
+                if isinstance(s, ast.Import) and a.name in ("functools", "operator", "itertools") and "stdlib:off" not in self.hooks:
+                    env[nm] = stdlib(a.name)
+                    continue
+                if isinstance(s, ast.ImportFrom) and s.module in ("functools", "operator", "itertools") and "stdlib:off" not in self.hooks and a.name in stdlib(s.module).fields:
+                    env[nm] = stdlib(s.module).fields[a.name]
+                    continue
                 env.setdefault(nm, Opaque(a.name if a.name in ("deque",) else f"import:{a.name}"))
         elif isinstance(s, ast.FunctionDef):
             env[s.name] = Closure(s, env)
@@ -1330,6 +1459,8 @@ class AbsExec:
                             self.call_closure(cb, list(cargs), dict(ckw), s)
                         else:
                             raise self.unknown(s, "ExitStack callback that is not a local function")
+        elif isinstance(s, (ast.Nonlocal, ast.Global)):
+            return
         elif isinstance(s, ast.Assert):
             if not self.truth(self.ev(s.test, env), s.test):
                 raise Raised("AssertionError", s)
